@@ -159,7 +159,13 @@ func c08HandleBlock(p *Prog, c *Check) {
 	c.Floor(rule, len(trace), 5)
 	// exactly-once: the marker write is guarded by height == stored + 1 and stores that height
 	nOnce := 0
-	for _, f := range p.CG().Reachable([]*ssa.Function{fn}, func(f *ssa.Function) bool { return !inModule(f) || isGeneratedFile(p.fileOf(f)) }) {
+	hbTree := p.CG().Reachable([]*ssa.Function{fn}, func(f *ssa.Function) bool { return !inModule(f) || isGeneratedFile(p.fileOf(f)) })
+	guardLiftScope = map[*ssa.Function]bool{}
+	for _, f := range hbTree {
+		guardLiftScope[origin(f)] = true
+	}
+	defer func() { guardLiftScope = nil }()
+	for _, f := range hbTree {
 		ffi := p.Info(f)
 		for i, ci := range callsTo(f, "TMSetSyncMeta") {
 			call, isCall := ci.(*ssa.Call)
